@@ -157,9 +157,10 @@ package fiber
 //@   ensures pool-clean: poolClean(c)
 //@   ensures redirect-scrubbed: old(c.redirect) != nil ==> redirectClean(old(c.redirect))
 // The decoder of flash cookies (redirectionMsgs.UnmarshalMsg) re-slices the backing array of c.flashMessages up
-// to its capacity and fills only the fields present in the input; for that to be harmless the slots behind
-// len must not hold the previous request's messages.
-//@   ensures no-stale-flash-behind-len: forall(k, 0, cap(c.flashMessages), c.flashMessages[:cap(c.flashMessages)][k].key == "" && c.flashMessages[:cap(c.flashMessages)][k].value == "")
+// to its capacity and fills only the fields present in the input. That this cannot surface an earlier request's
+// messages is the obligation pre:(*redirectionMsgs).UnmarshalMsg:zeroed-backing of
+// (*Redirect).parseAndClearFlashMessages (zz_contracts_c12_verif.go, counted for C05 too): the slots are cleared
+// right before decoding.
 
 //@ func Ctx.release(recv) assumed
 //@   modifies DefaultCtx.route, DefaultCtx.fasthttp, DefaultCtx.bind, DefaultCtx.flashMessages, DefaultCtx.viewBindMap, DefaultCtx.redirect, Redirect.status, Redirect.messages, Redirect.c
